@@ -20,6 +20,7 @@ import (
 	casketerrors "github.com/tmpim/casket/caskethttp/errors"
 	"github.com/tmpim/casket/caskethttp/httpserver"
 	casketlog "github.com/tmpim/casket/caskethttp/log"
+	_ "github.com/tmpim/casket/caskethttp/gzip"
 	_ "github.com/tmpim/casket/caskethttp/rewrite"
 	"github.com/tmpim/casket/casketfile"
 
@@ -39,7 +40,10 @@ import (
 //                   p<hex path> r.URL.Path = path (in place, as rewrite/ext/internal do)
 //                   u<hex path> r.URL = &url.URL{Path: path} (a new URL object)
 //   3 errlens     <status>=<len of default error body>,...
-//   4 wrap        - | errors | rewrite   (the real errors / rewrite directive between log and the handler;
+//   4 wrap        - | errors | rewrite | gzip  (the real errors / rewrite / gzip directive between log and the
+//                   handler; with gzip every request offers gzip, and because the compressed length is not
+//                   something the model computes, the answer carries size DIFFERENCES: a line's size field is
+//                   |logged size - bytes the client received| and the client's size field is 0;
 //                   rewrite: ^/b$ -> /a/b, ^/a/b$ -> /b, ^/c$ -> /zzz, ^/a/$ -> /c)
 //   5 writer      what is under the log recorder:
 //                   plain  httptest.ResponseRecorder (no io.ReaderFrom — like HTTP/2 or another wrapper)
@@ -251,6 +255,16 @@ func c20LogEval(f []string) (string, []string) {
 		}
 		defer eh.Log.Close()
 	}
+	if f[4] == "gzip" {
+		ctrl.Dispenser = casketfile.NewDispenser("Testfile", strings.NewReader("gzip\n"))
+		setup, err := casket.DirectiveAction("http", "gzip")
+		if err != nil {
+			return "setup-error:" + err.Error(), nil
+		}
+		if err := setup(ctrl); err != nil {
+			return "setup-error:" + err.Error(), nil
+		}
+	}
 	if f[4] == "rewrite" {
 		ctrl.Dispenser = casketfile.NewDispenser("Testfile", strings.NewReader(
 			"rewrite ^/b$ /a/b\nrewrite ^/a/b$ /b\nrewrite ^/c$ /zzz\nrewrite ^/a/$ /c\n"))
@@ -269,6 +283,9 @@ func c20LogEval(f []string) (string, []string) {
 	}
 
 	clients := make([]string, len(reqs))
+	clientSize := make([]int, len(reqs))
+	compressed := make([]bool, len(reqs))
+	gz := f[4] == "gzip"
 	var ts *httptest.Server
 	var hc *http.Client
 	if f[5] == "h1" {
@@ -282,6 +299,9 @@ func c20LogEval(f []string) (string, []string) {
 		if ts != nil {
 			req, _ := http.NewRequest("GET", ts.URL+paths[i], nil)
 			req.Header.Set("X-Id", strconv.Itoa(i))
+			if gz {
+				req.Header.Set("Accept-Encoding", "gzip")
+			}
 			resp, err := hc.Do(req)
 			if err != nil {
 				clients[i] = "client-error"
@@ -294,10 +314,17 @@ func c20LogEval(f []string) (string, []string) {
 				return
 			}
 			clients[i] = fmt.Sprintf("%d.%d", resp.StatusCode, len(b))
+			clientSize[i], compressed[i] = len(b), resp.Header.Get("Content-Encoding") == "gzip"
+			if gz {
+				clients[i] = fmt.Sprintf("%d.0", resp.StatusCode)
+			}
 			return
 		}
 		req := httptest.NewRequest("GET", "http://example.test"+paths[i], nil)
 		req.Header.Set("X-Id", strconv.Itoa(i))
+		if gz {
+			req.Header.Set("Accept-Encoding", "gzip")
+		}
 		rec := httptest.NewRecorder()
 		if f[5] == "rf" {
 			srv.ServeHTTP(c20RFClient{rec}, req)
@@ -305,6 +332,10 @@ func c20LogEval(f []string) (string, []string) {
 			srv.ServeHTTP(rec, req)
 		}
 		clients[i] = fmt.Sprintf("%d.%d", rec.Code, rec.Body.Len())
+		clientSize[i], compressed[i] = rec.Body.Len(), rec.Header().Get("Content-Encoding") == "gzip"
+		if gz {
+			clients[i] = fmt.Sprintf("%d.0", rec.Code)
+		}
 	}
 	if f[1] == "1" {
 		var wg sync.WaitGroup
@@ -335,6 +366,19 @@ func c20LogEval(f []string) (string, []string) {
 			w := strings.Split(l, " ")
 			if len(w) != 3 {
 				return "garbled-line:" + l, nil
+			}
+			if gz {
+				// size as a difference to what this request's client received
+				id, err1 := strconv.Atoi(w[0])
+				sz, err2 := strconv.Atoi(w[2])
+				if err1 != nil || err2 != nil || id < 0 || id >= len(reqs) {
+					return "garbled-line:" + l, nil
+				}
+				d := sz - clientSize[id]
+				if d < 0 {
+					d = -d
+				}
+				w[2] = strconv.Itoa(d)
 			}
 			lines = append(lines, strings.Join(w, "."))
 		}
@@ -373,6 +417,15 @@ func c20LogEval(f []string) (string, []string) {
 	}
 	if f[4] == "rewrite" {
 		tags = append(tags, "rewrite-directive-inside")
+	}
+	if gz {
+		tags = append(tags, "gzip-directive-inside")
+		for i := range compressed {
+			if compressed[i] && clientSize[i] > 0 {
+				tags = append(tags, "compressed-body-logged:"+f[5])
+				break
+			}
+		}
 	}
 	tags = append(tags, "writer="+f[5])
 	for _, sc := range probe.scripts {
@@ -498,6 +551,7 @@ func c20LogGen(g *hx.Gen) {
 		for _, e := range excs {
 			c20LogCase(g, []string{c20Dir(s, e...)}, false, allReqs())
 			c20LogCase(g, []string{c20Dir(s, e...)}, false, allReqs(), "rewrite")
+			c20LogCase(g, []string{c20Dir(s, e...)}, false, allReqs(), "gzip")
 		}
 	}
 	for _, s1 := range c20Scopes {
@@ -515,6 +569,7 @@ func c20LogGen(g *hx.Gen) {
 	for _, o := range outcomes {
 		for _, p := range []string{"/a/x", "/zzz"} {
 			for _, kind := range []string{"plain", "rf", "h1"} {
+				c20LogCase(g, []string{c20Dir("/a"), c20Dir("/a")}, false, []string{hx.HS(p) + ":" + c20Outcome(o)}, "gzip", kind)
 				c20LogCase(g, []string{c20Dir("/a"), c20Dir("/a")}, false, []string{hx.HS(p) + ":" + c20Outcome(o)}, "-", kind)
 				c20LogCase(g, []string{c20Dir("/a"), c20Dir("/a")}, false, []string{hx.HS(p) + ":" + c20Outcome(o)}, "errors", kind)
 			}
@@ -567,7 +622,7 @@ func c20LogGen(g *hx.Gen) {
 			}
 			reqs = append(reqs, hx.HS(hx.Pick(g.Rng, c20Paths))+":"+c20Outcome(o))
 		}
-		c20LogCase(g, dirs, g.Rng.Chance(1, 2), reqs, hx.Pick(g.Rng, []string{"-", "-", "errors", "rewrite"}), hx.Pick(g.Rng, []string{"plain", "plain", "rf", "h1"}))
+		c20LogCase(g, dirs, g.Rng.Chance(1, 2), reqs, hx.Pick(g.Rng, []string{"-", "-", "errors", "rewrite", "gzip"}), hx.Pick(g.Rng, []string{"plain", "plain", "rf", "h1"}))
 	}
 }
 
